@@ -1190,6 +1190,36 @@ bool areEqual(const std::string &str1, const std::string &str2)
     return str1 == str2;
 }
 
+void shareClonedImportSource(const ImportSourcePtr &originalImportSource, const ImportedEntityPtr &clone, ImportSourceMap &map)
+{
+    auto result = map.find(originalImportSource);
+    if (result == map.end()) {
+        map.emplace(originalImportSource, clone->importSource());
+    } else {
+        clone->setImportSource(result->second);
+    }
+}
+
+void shareClonedImportSources(const UnitsConstPtr &original, const UnitsPtr &clone, ImportSourceMap &map)
+{
+    if ((original != nullptr) && (clone != nullptr) && original->isImport() && clone->isImport()) {
+        shareClonedImportSource(original->importSource(), clone, map);
+    }
+}
+
+void shareClonedImportSources(const ComponentConstPtr &original, const ComponentPtr &clone, ImportSourceMap &map)
+{
+    if (original->isImport() && clone->isImport()) {
+        shareClonedImportSource(original->importSource(), clone, map);
+    }
+    for (size_t index = 0; (index < original->variableCount()) && (index < clone->variableCount()); ++index) {
+        shareClonedImportSources(original->variable(index)->units(), clone->variable(index)->units(), map);
+    }
+    for (size_t index = 0; (index < original->componentCount()) && (index < clone->componentCount()); ++index) {
+        shareClonedImportSources(original->component(index), clone->component(index), map);
+    }
+}
+
 void recordUrl(const HistoryEpochPtr &historyEpoch, const ImportedEntityConstPtr &importedEntity)
 {
     if (importedEntity->isImport()) {
